@@ -56,17 +56,33 @@ Proof.
 Qed.
 
 (** ** A run executes exactly [exec_node] (Test and Bench), in order, without panic *)
-Lemma run_args_ok : forall a e vals path args,
-  forallb (fun i => i <? N.of_nat (length vals)) args = true ->
-  okx (run_args a e vals path args) (flat_map (arg_case e vals path) args).
+(** A case is executed once, whatever the number of thread counts it is run over. *)
+Lemma executed_run_threads_more : forall a id path arg tcs, executed (run_threads a id path arg false tcs) = [].
 Proof.
-  intros a e vals path. induction args as [|i tl IH]; intro H; cbn [run_args flat_map].
+  intros a id path arg. induction tcs as [|tc tl IH]; [reflexivity|].
+  cbn [run_threads]. rewrite executed_app, IH. destruct (is_bench a); reflexivity.
+Qed.
+
+Lemma executed_run_bench : forall tcs a id name path il arg,
+  executed (run_bench tcs a id name path il arg) = [(id, path, arg)].
+Proof.
+  intros tcs a id name path il arg. unfold run_bench.
+  destruct tcs as [|t1 [|t2 tl]]; try (destruct (is_bench a); reflexivity).
+  rewrite !executed_app. cbn [run_threads]. rewrite !executed_app, executed_run_threads_more.
+  destruct (is_bench a); reflexivity.
+Qed.
+
+Lemma run_args_ok : forall tcs a e vals path args,
+  forallb (fun i => i <? N.of_nat (length vals)) args = true ->
+  okx (run_args tcs a e vals path args) (flat_map (arg_case e vals path) args).
+Proof.
+  intros tcs a e vals path. induction args as [|i tl IH]; intro H; cbn [run_args flat_map].
   - apply okx_tret.
   - cbn in H. apply andb_true_iff in H. destruct H as [Hi Htl]. apply N.ltb_lt in Hi.
     unfold arg_case at 1.
     destruct (nth_error vals (N.to_nat i)) as [v|] eqn:E.
     + apply (okx_tseq _ _ [(entry_id e, arg_path path e i, Some (i, v))]); [|apply IH; exact Htl].
-      unfold run_bench. destruct (is_bench a); split; reflexivity.
+      split; [reflexivity|]. cbn [fst tret]. apply executed_run_bench.
     + apply nth_error_None in E. lia.
 Qed.
 
@@ -82,7 +98,7 @@ Proof.
   intros c a e args options path il Ha Hwf. unfold run_bench_entry. rewrite ignore_same.
   destruct (leaf_ignored c options); [split; reflexivity|]. rewrite Ha.
   cbn in Hwf. destruct (entry_runner e) as [|o vals] eqn:E.
-  - unfold run_bench. destruct (is_bench a); split; reflexivity.
+  - split; [reflexivity|]. cbn [fst tret]. apply executed_run_bench.
   - destruct args as [l|]; [|discriminate].
     apply okx_tseq_l; [split; reflexivity|].
     apply okx_tseq_r; [apply run_args_ok; exact Hwf|split; reflexivity].
